@@ -513,6 +513,9 @@ class Interp:
         if self.same_module_function(n):
             self.ctx.imports[n] = (self.ctx.relpath, n)
             return FuncV("repo", n)
+        mc = self.module_constant(n)
+        if mc is not None:
+            return mc[0]
         if n in ("np", "numpy"):
             return ModV("np")
         if n == "time":
@@ -526,6 +529,31 @@ class Interp:
         # assigned somewhere in the function but not on this path -> UnboundLocalError
         self.ctx.oblige("defined", False, st, node, n, SAFETY_TAG, note="name '%s' is not bound on this path" % n)
         raise ToolLimit("unbound name %s" % n)
+
+    def module_constant(self, n):
+        """a module-level name of the same file bound exactly once to a literal (number, string, tuple/list of those): its value"""
+        if self.ctx.relpath.startswith("<"):
+            return None
+        src, tree = load_module(self.ctx.relpath)
+        hits = [x for x in tree.body if isinstance(x, ast.Assign) and len(x.targets) == 1 and isinstance(x.targets[0], ast.Name) and x.targets[0].id == n]
+        if len(hits) != 1:
+            return None
+        try:
+            val = ast.literal_eval(hits[0].value)
+        except Exception:
+            return None
+        def conv(v):
+            if isinstance(v, (tuple, list)):
+                return TupleV([conv(e) for e in v])
+            if isinstance(v, bool) or isinstance(v, str) or v is None:
+                return v
+            if isinstance(v, (int, float)):
+                return V.num_const(v)
+            raise ValueError
+        try:
+            return (conv(val),)
+        except ValueError:
+            return None
 
     def same_module_function(self, n):
         if self.ctx.relpath.startswith("<"):
@@ -1453,4 +1481,4 @@ OPS = {ast.Add: "+", ast.Sub: "-", ast.Mult: "*", ast.Div: "/", ast.FloorDiv: "/
        ast.Eq: "==", ast.NotEq: "!=", ast.Lt: "<", ast.LtE: "<=", ast.Gt: ">", ast.GtE: ">=", ast.Is: "is", ast.IsNot: "is not",
        ast.In: "in", ast.NotIn: "not in"}
 
-BUILTINS = {"min", "max", "abs", "round", "int", "float", "len", "range", "bool", "print", "sum", "str", "isinstance", "list", "tuple"}
+BUILTINS = {"min", "max", "abs", "round", "int", "float", "len", "range", "bool", "print", "sum", "str", "isinstance", "list", "tuple", "setattr"}
